@@ -30,7 +30,7 @@
 (***************************************************************************)
 EXTENDS Integers, Sequences, FiniteSets, TLC
 
-CONSTANTS Scens,      \* which initial populations (subset of 1..7), one initial state each
+CONSTANTS Scens,      \* which initial populations (subset of 1..8), one initial state each
           MaxDepth,   \* histories of at most this many operations
           MaxH,       \* at most this many handles (bounds Copy)
           Vals,       \* tokens written by SetLeaf
@@ -48,15 +48,22 @@ CT == [ Leaf    |-> << F("a","a","leaf",""), F("s","s","leaf",""), F("arr","arr"
         Mid     |-> << F("inner","inner","nest","Leaf"), F("k","k","leaf","") >>,
         Outer   |-> << F("mid","mid","nest","Mid"), F("z","z","leaf","") >>,
         Holder  |-> << F("r","r","ref","Leaf"), F("h","h","leaf","") >>,
-        Renamed |-> << F("_x","x","leaf",""), F("_in","inn","nest","Leaf"), F("y","y","leaf","") >> ]
+        Renamed |-> << F("_x","x","leaf",""), F("_in","inn","nest","Leaf"), F("y","y","leaf","") >>,
+        Wrap    |-> << F("hold","hold","nest","Holder"), F("w","w","leaf","") >> ]        \* a nested part that itself holds a reference
 (* constant lookup tables (TLC evaluates them once) *)
 FL == [c \in DOMAIN CT |-> {CT[c][i] : i \in 1..Len(CT[c])}]
 FP == [c \in DOMAIN CT |-> [py \in {f.py : f \in FL[c]} |-> CHOOSE f \in FL[c] : f.py = py]]
 FN == [c \in DOMAIN CT |-> [n \in {f.n : f \in FL[c]} |-> CHOOSE f \in FL[c] : f.n = n]]
-HR == [c \in DOMAIN CT |-> \E f \in FL[c] : f.k = "ref"]
+(* xo-paths of the reference fields of a struct of class c, its nested parts included (not through references) *)
+RECURSIVE RefPaths(_)
+RefPaths(c) == UNION {IF f.k = "ref" THEN {<<f.n>>} ELSE IF f.k = "nest" THEN {<<f.n>> \o p : p \in RefPaths(f.c)} ELSE {} : f \in FL[c]}
+RP == [c \in DOMAIN CT |-> RefPaths(c)]
+ASSUME \A c \in DOMAIN CT : Cardinality(RP[c]) <= 1          \* Copy / SetNested duplicate at most one referent per object
+HR == [c \in DOMAIN CT |-> RP[c] # {}]
 Flds(c) == FL[c]
 ByPy(c, py) == FP[c][py]
 HasRefField(c) == HR[c]
+RPath(c) == CHOOSE p \in RP[c] : TRUE                          \* only used when HasRefField(c)
 
 NullLoc == <<>>
 Child(loc, n) == <<loc[1], Append(loc[2], n)>>
@@ -120,6 +127,7 @@ MidV(t) == [inner |-> LeafV(t), k |-> t + 4]
 OuterV(t) == [mid |-> MidV(t), z |-> t + 5]
 HolderV(t) == [r |-> NullLoc, h |-> t + 1]
 RenV(t) == [_x |-> t + 4, _in |-> LeafV(t), y |-> t + 5]
+HolderR(t, tgt) == [r |-> <<tgt, <<>>>>, h |-> t + 1]
 A(c, b, v) == [cls |-> c, buf |-> b, val |-> v]
 InitHeap(Scen) ==
   CASE Scen = 1 -> << A("Outer", 1, OuterV(10)), A("Mid", 2, MidV(20)) >>                              \* three levels, source in another buffer
@@ -129,10 +137,15 @@ InitHeap(Scen) ==
     [] Scen = 5 -> << A("Outer", 1, OuterV(10)), A("Outer", 1, OuterV(20)) >>                           \* nested parts as sources, same buffer
     [] Scen = 6 -> << A("Holder", 1, HolderV(10)), A("Holder", 1, HolderV(20)), A("Leaf", 1, LeafV(30)) >>  \* two holders sharing one target
     [] Scen = 7 -> << A("Mid", 1, MidV(10)), A("Leaf", 1, LeafV(20)) >>                                 \* two levels
+    [] Scen = 8 -> << A("Leaf", 1, LeafV(10)), A("Holder", 1, HolderR(20, 1)),                          \* a nested part that holds a reference:
+                      A("Wrap", 1, [hold |-> HolderR(20, 1), w |-> 35]),                               \* wrap built with hold = m0 (r = t0), buffer 1;
+                      A("Leaf", 2, LeafV(40)), A("Holder", 2, HolderR(50, 4)) >>                        \* t1 and m1 (r = t1) in buffer 2
+(* as implemented: an object that is the target of a reference stays where it is *)
+IsTarget(hp, i) == \E j \in 1..Len(hp) : \E p \in RP[hp[j].cls] : ValAt(hp, <<j, p>>) = <<i, <<>>>>
 Init ==
   \E sc \in Scens :
     /\ heap = InitHeap(sc)
-    /\ hs = [i \in 1..Len(InitHeap(sc)) |-> [cls |-> InitHeap(sc)[i].cls, node |-> FreshNode(InitHeap(sc), InitHeap(sc)[i].cls, <<i, <<>>>>, TRUE)]]
+    /\ hs = [i \in 1..Len(InitHeap(sc)) |-> [cls |-> InitHeap(sc)[i].cls, node |-> FreshNode(InitHeap(sc), InitHeap(sc)[i].cls, <<i, <<>>>>, ~IsTarget(InitHeap(sc), i))]]
     /\ depth = 0
 
 (* ------------------------------------------------------------------ actions *)
@@ -151,8 +164,14 @@ SetNested(e, f, src) ==
   /\ LET N == Node(hs, e)
          M == Node(hs, src)
          dst == Child(N.loc, f.n)
+         v == ValAt(heap, M.loc)
+         \* the copy's reference: same buffer -> the same referent (shared); other buffer -> a DUPLICATE of the referent in
+         \* the destination's buffer (as Copy does), never an object of the other buffer
+         dup == HasRefField(f.c) /\ Walk(v, RPath(f.c)) # NullLoc /\ BufOf(heap, Walk(v, RPath(f.c))) # BufOf(heap, dst)
          hp == IF dst = M.loc THEN heap                       \* same memory: nothing to copy
-               ELSE [heap EXCEPT ![dst[1]].val = Put(@, dst[2], ValAt(heap, M.loc))]
+               ELSE IF dup THEN [Append(heap, A("Leaf", BufOf(heap, dst), ValAt(heap, Walk(v, RPath(f.c)))))
+                                   EXCEPT ![dst[1]].val = Put(@, dst[2], Put(v, RPath(f.c), <<Len(heap) + 1, <<>>>>))]
+               ELSE [heap EXCEPT ![dst[1]].val = Put(@, dst[2], v)]
          new == [loc |-> dst, mv |-> FALSE,
                  kids |-> IF Bug THEN M.kids ELSE FreshKids(hp, f.c, dst)]
      IN /\ heap' = hp
@@ -161,7 +180,7 @@ SetNested(e, f, src) ==
 
 (* h.r = src   r a reference field: shares src; refused across buffers *)
 RefOK(e, f, src) ==
-  /\ Valid(hs, e) /\ e[2] = <<>> /\ f \in Flds(ECls(hs, e)) /\ f.k = "ref"
+  /\ Valid(hs, e) /\ ~ERef(hs, e) /\ f \in Flds(ECls(hs, e)) /\ f.k = "ref"      \* e: a handle or a nested part (wrap.hold.r = t)
   /\ Valid(hs, src) /\ ~ERef(hs, src) /\ ECls(hs, src) = f.c
 SetRef(e, f, src) ==
   /\ RefOK(e, f, src)
@@ -170,7 +189,7 @@ SetRef(e, f, src) ==
      /\ BufOf(heap, M.loc) = BufOf(heap, N.loc)
      /\ heap' = [heap EXCEPT ![N.loc[1]].val = Put(@, Append(N.loc[2], f.n), M.loc)]
      /\ hs' = [i \in 1..Len(hs) |->
-                 IF i = e[1] THEN [hs[i] EXCEPT !.node.kids[f.n] = [loc |-> M.loc]]
+                 IF i = e[1] THEN [hs[i] EXCEPT !.node = SetKid(@, Append(XoPath(hs[i].cls, e[2]), f.n), [loc |-> M.loc])]
                  ELSE IF i = src[1] /\ src[2] = <<>> THEN [hs[i] EXCEPT !.node.mv = FALSE]   \* as implemented: a reference target stays where it is
                  ELSE hs[i]]
   /\ Tick
@@ -181,11 +200,11 @@ SetRefRefused(e, f, src) ==
 
 (* h.r = None: the attribute reflects the (now null) buffer data *)
 ClearRef(e, f) ==
-  /\ Valid(hs, e) /\ e[2] = <<>> /\ f \in Flds(ECls(hs, e)) /\ f.k = "ref"
+  /\ Valid(hs, e) /\ ~ERef(hs, e) /\ f \in Flds(ECls(hs, e)) /\ f.k = "ref"
   /\ Node(hs, e).kids[f.n].loc # NullLoc
   /\ LET N == Node(hs, e) IN
      /\ heap' = [heap EXCEPT ![N.loc[1]].val = Put(@, Append(N.loc[2], f.n), NullLoc)]
-     /\ hs' = [hs EXCEPT ![e[1]].node.kids[f.n] = [loc |-> NullLoc]]
+     /\ hs' = [hs EXCEPT ![e[1]].node = SetKid(@, Append(XoPath(hs[e[1]].cls, e[2]), f.n), [loc |-> NullLoc])]
   /\ Tick
 
 (* n = src.copy(_buffer = b): an independent equal object; a reference keeps its target inside the same buffer and *)
@@ -195,8 +214,9 @@ Copy(src, b) ==
   /\ LET M == Node(hs, src)
          c == ECls(hs, src)
          v == ValAt(heap, M.loc)
-         dup == HasRefField(c) /\ v.r # NullLoc /\ BufOf(heap, v.r) # b
-         hp == IF dup THEN heap \o << A("Leaf", b, ValAt(heap, v.r)), A(c, b, [v EXCEPT !.r = <<Len(heap) + 1, <<>>>>]) >>
+         rp == RPath(c)                                     \* the reference field may sit in a nested part (Wrap: hold.r)
+         dup == HasRefField(c) /\ Walk(v, rp) # NullLoc /\ BufOf(heap, Walk(v, rp)) # b
+         hp == IF dup THEN heap \o << A("Leaf", b, ValAt(heap, Walk(v, rp))), A(c, b, Put(v, rp, <<Len(heap) + 1, <<>>>>)) >>
                ELSE Append(heap, A(c, b, v))
      IN /\ heap' = hp
         /\ hs' = Append(hs, [cls |-> c, node |-> FreshNode(hp, c, <<Len(hp), <<>>>>, TRUE)])
@@ -204,7 +224,7 @@ Copy(src, b) ==
 
 (* src.move(_buffer = b) *)
 MoveArgs(e) == Valid(hs, e) /\ ~ERef(hs, e)
-HoldsRef(e) == HasRefField(ECls(hs, e)) /\ ValAt(heap, Node(hs, e).loc).r # NullLoc
+HoldsRef(e) == HasRefField(ECls(hs, e)) /\ Walk(ValAt(heap, Node(hs, e).loc), RPath(ECls(hs, e))) # NullLoc   \* at any depth
 MustRefuse(e) == e[2] # <<>> \/ HoldsRef(e)                        \* nested in another, or contains references
 MayRefuse(e) == MustRefuse(e) \/ ~Node(hs, e).mv \/ HasRefField(ECls(hs, e))   \* left open by the property: reference targets, null references
 MoveDo(e, b) ==
@@ -261,10 +281,11 @@ CopyIndependent == \A i, j \in 1..Len(hs) : i # j =>
 (* every part of an object lives in the object's buffer, inside the object *)
 PartsInside == \A i \in 1..Len(hs) : \A L \in OwnLocs(hs[i].node, hs[i].cls) : L[1] = hs[i].node.loc[1]
 (* a reference shares (dressed child = target = what the buffer's reference word designates) within one buffer *)
-RefShares == \A i \in 1..Len(hs) : \A f \in Flds(hs[i].cls) : f.k = "ref" =>
-               LET t == hs[i].node.kids[f.n].loc IN
-               /\ t = ValAt(heap, Child(hs[i].node.loc, f.n))
-               /\ t # NullLoc => BufOf(heap, t) = BufOf(heap, hs[i].node.loc)
+RefShares == \A i \in 1..Len(hs) : \A p \in {q \in NP[hs[i].cls] : ~ThroughRef(hs[i].cls, q)} :       \* the handle and its nested parts
+               \A f \in Flds(ClassAt(hs[i].cls, p)) : f.k = "ref" =>
+                 LET t == Node(hs, <<i, p>>).kids[f.n].loc IN
+                 /\ t = ValAt(heap, <<hs[i].node.loc[1], hs[i].node.loc[2] \o XoPath(hs[i].cls, p) \o <<f.n>>>>)
+                 /\ t # NullLoc => BufOf(heap, t) = BufOf(heap, hs[i].node.loc)
 
 (* action properties *)
 CopyEqual == [][depth < MaxDepth => \A s \in AllE, b \in Bufs : Copy(s, b) =>
